@@ -714,7 +714,13 @@ func verifyAll(prog *ssa.Program, ix fnIndex, mine []*Contract, all map[string]*
 		go func(j job) {
 			defer wg.Done()
 			defer func() { <-sem }()
-			r := solve(filepath.Join(o.OutDir, "smt"), j.e, j.ob, o.Timeout)
+			limit := o.Timeout
+			if j.ob.Kind == "cover" && limit > 15*time.Second {
+				// reachability witnesses are informational (only an unreachable
+				// precondition is an error): they do not get the long limit
+				limit = 15 * time.Second
+			}
+			r := solve(filepath.Join(o.OutDir, "smt"), j.e, j.ob, limit)
 			if o.Tier == "thorough" && r.Verdict == "unsat" {
 				crossCheck(&r, 30*time.Second)
 			}
